@@ -181,6 +181,12 @@ func genHistory(id int, r *hx.RNG, maxLen int) *history {
 	}
 	n := 3 + r.Intn(maxLen-2)
 	for len(h.entries) < n {
+		if len(g.queue) > 0 {
+			q := g.queue[0]
+			g.queue = g.queue[1:]
+			add(q.data, q.tag)
+			continue
+		}
 		f := g.pickFamily()
 		valid := func() ([]byte, string) { return g.pickFamily().gen(g) }
 		switch {
@@ -714,7 +720,36 @@ func compare(h *history, a, b *runOut, who string, verboseB bool) []finding {
 				if x != nil && y != nil && x.rows != nil && y.rows != nil {
 					desc += ": " + firstRowDiff(x.rows, y.rows)
 				}
-				fs = append(fs, finding{"replica:" + t + ":" + entryType(h, k), desc, replayOps(h, k)})
+				// name the command that wrote the table: the first entry after the last dump on which
+				// the two replicas still agreed at which replica A's copy of the table changed
+				culprit := k
+				k0 := -1
+				for _, kk := range idxs {
+					if kk < k {
+						k0 = kk
+					}
+				}
+				for j := k0 + 1; j <= k; j++ {
+					cur, ok1 := a.dumps[j]
+					prev, ok0 := a.dumps[j-1]
+					if !ok1 {
+						continue
+					}
+					var hp string
+					if ok0 && prev[t] != nil {
+						hp = prev[t].hash
+					} else if j > 0 && !ok0 {
+						continue
+					}
+					if cur[t] != nil && cur[t].hash != hp {
+						culprit = j
+						break
+					}
+				}
+				if culprit != k {
+					desc += fmt.Sprintf(" (table last agreed after entry %d; first written by replica A at entry %d, %s)", k0, culprit, h.entries[culprit].Tag)
+				}
+				fs = append(fs, finding{"replica:" + t + ":" + entryType(h, culprit), desc, replayOps(h, k)})
 				return fs
 			}
 		}
@@ -963,10 +998,13 @@ func main() {
 				tn = typeName(e.Data[0])
 			}
 			run.Tag("res:" + tn + ":" + cls)
-			if cls == "error" || cls == "panic" {
+			if cls == "error" || cls == "panic" || (tn == "UpdateVirtualIPRequestType" && os.Getenv("C01_DEBUG") == "vip") {
 				debug[fmt.Sprintf("%s [%s] %.160s", tn, tagHead(e.Tag), a.res[j])]++
 			}
 			run.Tag("gen:" + tagHead(e.Tag))
+			if tn == "UpdateVirtualIPRequestType" && cls == "value" {
+				run.Tag(fmt.Sprintf("manual-vip:unassigned-from=%d", strings.Count(a.res[j], "PeeredServiceName{")))
+			}
 			if strings.HasPrefix(a.outcomes[j], "h:") {
 				handled[e.Data[0]&0x7f] = true
 				if cls != "error" && cls != "false" {
@@ -1095,6 +1133,13 @@ func envSection(run *hx.Run) {
 	for i, s := range settings {
 		netutil.SetAgentBindAddr(&net.IPAddr{IP: s.ip})
 		outs[i] = runHistory(h, 1, 1, true)
+	}
+	// the same setting twice must agree, otherwise whatever differs below is not caused by the bind
+	// address (the replica comparison above reports it)
+	netutil.SetAgentBindAddr(&net.IPAddr{IP: settings[0].ip})
+	if again := runHistory(h, 1, 1, true); len(compare(h, outs[0], again, "the same server again", true)) > 0 {
+		run.Tag("env:witness-unstable")
+		return
 	}
 	for i, kind := range map[int]string{1: "env:bind-address", 2: "env:bind-address-family", 3: "env:bind-address-unset"} {
 		fs := compare(h, outs[0], outs[i], "a server whose bind address is "+settings[i].name, true)
